@@ -1,3 +1,4 @@
+CONSTANT Resolvers <- EnvResolvers
 CONSTANT Protos <- EnvProtos
 CONSTANT DirSets <- EnvDirSets
 CONSTANT Docs <- D1
